@@ -179,6 +179,19 @@ def judge(ctx, path, bad, T):
 
 def trace_cfg():
     return """SPECIFICATION TSpec
+CONSTANTS
+  NNodes = 3
+  Groups = {"A", "B", "C"}
+  HasFree = TRUE
+  T = 4
+  MaxLen = 10
+  MaxId = 1000000
+  MaxCommits = 1000000
+  Writers = {"w1", "w2"}
+  SkipAbsentPeers = FALSE
+  Bug = "none"
+INVARIANTS NoPhantom StoredAtLeaseholderOnly AckedIsReadable
+PROPERTIES CommitAckOnlyAfterAll
 CONSTRAINT HW
 POSTCONDITION TraceAccepted
 CHECK_DEADLOCK FALSE
@@ -190,7 +203,7 @@ def validate_traces(ctx, text, tag):
     DistFramerTrace.tla. Returns (accepted, events, distinct states)."""
     n = len([x for x in text.split("\n") if x.strip()])
     if n == 0:
-        return True, 0, 0
+        return True, 0, 0, None
     r = ctx.tlc(AREA, "DistFramerTrace", "tr.cfg", files={"tr.cfg": trace_cfg(), "trace.ndjson": text},
                 workers=1, deque=True, tag=tag, timeout=1200, expect_violation=True)
     hwm = None
